@@ -689,24 +689,31 @@ def u_wrapper_toplevel(root):
                                   z3.BoolVal(top(vw.post) == [("IndexedFit", ("data", "model_function"), {})] + gen4("IndexedFit") + [("run", ("IndexedFit",) + tuple(common), {})]))])
     eng.verify(WRAP, "indexed_fit", None, lambda e, st, me_: {n_: K(n_) for n_ in names_idx}, contract=c)
     ERRKW = ("error", "error_rel", "error_cor", "error_cor_rel")
-    for ga in ("None+errors", "None+no-errors", "True", "False") + tuple("None+only:" + k_ for k_ in ERRKW):
+    for ga in ("None+errors", "None+no-errors", "True", "False") + tuple("None+only:" + k_ for k_ in ERRKW) + ("False+binned-data",):
         for model_given in (True, False):
             c = Contract(WRAP, "hist_fit")
+            binned = ga.endswith("+binned-data")          # data given as a HistContainer / np.histogram result, no binning arguments: handed to HistFit as it is
+            ga = ga.split("+binned-data")[0]
 
-            def post(vw, ga=ga, model_given=model_given):
+            def post(vw, ga=ga, model_given=model_given, binned=binned):
                 cost = "gauss_approximation" if ga in ("None+errors", "True") or ga.startswith("None+only:") else "poisson"          # ANY one uncertainty keyword is enough
                 e_or_none = (lambda n_: "None") if ga == "None+no-errors" else (lambda n_: n_ if n_ == ga.split(":")[1] else "None") if ga.startswith("None+only:") else (lambda n_: n_)
                 exp = [("HistContainer", ("n_bins", "bin_range", "bin_edges", "data"), {}), ("HistFit", ("HistContainer",) + (("model_function",) if model_given else ()), {"cost_function": cost, "density": "density"})]
+                if binned:
+                    exp = [("HistFit", ("data",) + (("model_function",) if model_given else ()), {"cost_function": cost, "density": "density"})]
                 exp += [(t_, tuple(e_or_none(x) if x in ("error", "error_cor", "error_rel", "error_cor_rel") else x for x in a_), k_) for t_, a_, k_ in gen4("HistFit")]
                 exp.append(("run", ("HistFit",) + tuple(common), {}))
-                return [("HistContainer(n_bins, bin_range, bin_edges, data); Gaussian approximation iff asked for or (not said and any uncertainty given), Poisson otherwise; keywords forwarded as for indexed_fit",
+                return [("raw data are binned as specified - HistContainer(n_bins, bin_range, bin_edges, data) -, data that come binned (no binning argument) reach HistFit as they are; Gaussian approximation iff asked for or (not said and any uncertainty given), Poisson otherwise; keywords forwarded as for indexed_fit",
                          z3.BoolVal([(a_, tuple("HistContainer" if (isinstance(x, str) and x == "HistContainer") else x for x in b_), c_) for a_, b_, c_ in top(vw.post)] == exp))]
             c.ensures.append(post)
 
-            def init(e, st, me_, ga=ga, model_given=model_given):
+            def init(e, st, me_, ga=ga, model_given=model_given, binned=binned):
                 a = {n_: K(n_) for n_ in ["data", "n_bins", "bin_range", "bin_edges", "p0", "dp0", "error", "error_rel", "error_cor", "error_cor_rel", "errors_rel_to_model", "density", "limits", "fixed", "constraints", "report", "profile", "save"]}
                 a["model_function"] = K("model_function") if model_given else VNone()
                 a["gauss_approximation"] = VNone() if ga.startswith("None") else VBool(z3.BoolVal(ga == "True"))
+                if binned:
+                    for n_ in ("n_bins", "bin_range", "bin_edges"):
+                        a[n_] = VNone()
                 if ga == "None+no-errors":
                     for n_ in ("error", "error_rel", "error_cor", "error_cor_rel"):
                         a[n_] = VNone()
@@ -715,7 +722,7 @@ def u_wrapper_toplevel(root):
                         if n_ != ga.split(":")[1]:
                             a[n_] = VNone()
                 return a
-            eng.verify(WRAP, "hist_fit", None, init, contract=c, tag=f"[gauss_approximation={ga},model={'given' if model_given else 'default'}]")
+            eng.verify(WRAP, "hist_fit", None, init, contract=c, tag=f"[gauss_approximation={ga},model={'given' if model_given else 'default'}{',data already binned' if binned else ''}]")
     # k2Fit (legacy front end): every one of its arguments that describes the fit reaches xy_fit under the right keyword - in particular the reference of the relative uncertainties
     from . import c03 as _c03
     K2 = {"p0": "p0", "dp0": "dp0", "x_error": "sx", "y_error": "sy", "x_error_rel": "srelx", "y_error_rel": "srely", "x_error_cor": "xabscor", "y_error_cor": "yabscor", "x_error_cor_rel": "xrelcor", "y_error_cor_rel": "yrelcor",
